@@ -143,11 +143,12 @@ type HarnessCfg struct {
 	Workers       int
 	IntSolvers    bool // make INT back ends available for assertion queries
 	CrossCheck    bool // second solver on assertion queries
+	MaxSeconds    int  // wall-clock budget of one harness exploration (0: none)
 	Params        map[string]int
 }
 
 func defaultCfg(name string) *HarnessCfg {
-	return &HarnessCfg{Name: name, Unwind: 20000, MaxConcretise: 64, MaxPermute: 4, MaxPaths: 200000,
+	return &HarnessCfg{Name: name, Unwind: 200000, MaxConcretise: 64, MaxPermute: 4, MaxPaths: 200000,
 		FeasTimeout: 3 * time.Second, AssertTimeout: 20 * time.Second, Workers: 16, Params: map[string]int{}}
 }
 
@@ -215,6 +216,7 @@ type sharedState struct {
 	paths     int64
 	maxPaths  int64
 	enumCache sync.Map
+	deadline  time.Time
 	provenMu  sync.Mutex
 	proven    map[uint64][][]uint64 // goal hash -> path-condition hash sets under which it was proved
 }
@@ -250,7 +252,12 @@ func (s *sharedState) recordProven(goal uint64, pc []uint64) {
 	}
 }
 
-func (s *sharedState) overBudget() bool { return atomic.LoadInt64(&s.paths) > s.maxPaths }
+func (s *sharedState) overBudget() bool {
+	if atomic.LoadInt64(&s.paths) > s.maxPaths {
+		return true
+	}
+	return !s.deadline.IsZero() && time.Now().After(s.deadline)
+}
 
 // ---- the machine ----
 
@@ -284,6 +291,7 @@ type Machine struct {
 	flagSets      map[*Cell]*flagSetModel
 	fileContent   *StrV
 	fileSet       bool
+	lastFocus     []*Term
 	alias         map[string]*Term
 	varBound      map[string]int
 	syncMaps      map[*Cell]*MapObj
@@ -518,6 +526,9 @@ func Explore(p *Program, hname string, cfg *HarnessCfg, stats *SolverStats) (*Ha
 	start := time.Now()
 	hr := &HarnessResult{Name: hname, ByStatus: map[string]int{}, Reached: map[string]int{}, Funcs: map[string]int{}, Unmodelled: map[string]int{}, Notes: map[string]map[string]int{}}
 	shared := &sharedState{maxPaths: int64(cfg.MaxPaths)}
+	if cfg.MaxSeconds > 0 {
+		shared.deadline = time.Now().Add(time.Duration(cfg.MaxSeconds) * time.Second)
+	}
 	var mu sync.Mutex
 	cond := sync.NewCond(&mu)
 	queue := [][]int{{}}
